@@ -377,6 +377,8 @@ def run(tier, seed):
     par.pmap(_FI.work, _FI.tasks(), extra=(('recs',),), stats=st, chunk=6)
     par.pmap(work_repeats, [(n, k, w) for n in sorted(REPEAT_SETS) for k in (2, 3, 8, 9, 10, 11, 30) for w in ('front', 'back', 'around')], stats=st, chunk=4)
     par.pmap(work_client, [(b, k) for b in bs[::4] for k in ('all', 'even', 'odd', 'clean', 'terrapin-hardened', 'unknowns', 'asym-c2s-weak', 'asym-s2c-weak')], stats=st, chunk=4)
+    from props import delivery as _DL
+    par.pmap(_DL.work, _DL.tasks(tier), extra=(('recs',),), stats=st, chunk=12)
     vcases = []
     for (prod, version, banner), kind in H.pick(tasks, seed, 12 if tier == 'quick' else 60):
         vcases.append({'label': '%s %s' % (banner, kind), 'opts': ['-n'] + (['-j'] if len(vcases) % 2 else []), 'make': (lambda kind=kind, banner=banner: make_server(kind, banner)[0])})
